@@ -400,7 +400,7 @@ def rule_store(u, rep):
             if not ok:
                 rep.add("STORE", "truncate", "store does not open the destination with create+truncate (File::create or OpenOptions .write(true).create(true).truncate(true)): stale bytes of a longer previous file would remain (calls: %s)" % names, b.loc())
             ser = [c for c in calls if c[0] == "serialize"]
-            ok = len(ser) == 1 and mentions(ser[0][2], lambda x: x and x[0] == "call" and x[1] == "new" and "bufwriter" in str(x[3]).lower())
+            ok = len(ser) == 1 and mentions(ser[0][2], lambda x: x and x[0] == "call" and x[1] in ("new", "with_capacity") and "bufwriter" in str(x[3]).lower())
             ok = ok and mentions(ser[0][2], lambda x: x == ("self",))
             rep.oblige(ok)
             if not ok:
